@@ -540,8 +540,8 @@ func (c *Client) stepGet(op adapt.Op, got adapt.Outcome) []Diff {
 		return d
 	}
 	want := t.Items[key]
-	if !val.ItemsEqual(got.Item, want) {
-		return diff("get-item", "GetItem %s returned %s, model has %s", op.Key.Canon(), got.Item.Canon(), want.Canon())
+	if eq, rule := itemsEq("get-item", got.Item, want); !eq {
+		return diff(rule, "GetItem %s returned %s, model has %s", op.Key.Canon(), got.Item.Canon(), want.Canon())
 	}
 	return nil
 }
@@ -572,11 +572,25 @@ func (c *Client) stepUpdate(op adapt.Op, got adapt.Outcome) []Diff {
 	}
 	stored := t.Items[key]
 	res, _ := condOutcome(op, stored)
-	proceed, ds := applyCondClass(op, got, res)
-	if ds != nil {
-		return ds
+	if op.UpdAST == nil {
+		return diff("model-gap", "update without AST")
 	}
-	if !proceed && got.Class == adapt.ClsCondFailed {
+	// what the update itself does when the condition lets it through
+	base := stored
+	if base == nil {
+		base = t.KeyOf(op.Key).Clone()
+	}
+	ur := op.UpdAST.Apply(base, op.Values)
+	updRejects := ur.Reject || (!ur.Unsure && ur.Item != nil && t.indexKeyProblem(ur.Item))
+	if updateTouchesKey(t, op.UpdAST) {
+		updRejects = true
+		ur = refmodel.UResult{Reject: true}
+	}
+	switch {
+	case got.Class == adapt.ClsCondFailed:
+		if res&refmodel.F == 0 {
+			return diff("cond-refuse", "update refused (ConditionalCheckFailed) although its condition is %s on the target item", res)
+		}
 		if got.CCFItem != nil && !val.ItemsEqual(got.CCFItem, stored) {
 			return diff("ccf-item", "ConditionalCheckFailed carried %s, stored item is %s", got.CCFItem.Canon(), stored.Canon())
 		}
@@ -584,55 +598,128 @@ func (c *Client) stepUpdate(op adapt.Op, got adapt.Outcome) []Diff {
 			return diff("ccf-item-missing", "ALL_OLD requested on condition failure but no item carried; stored %s", stored.Canon())
 		}
 		return nil
-	}
-	if !proceed {
-		// rejected because of the condition (admissible) – no effect
-		return nil
-	}
-	if op.UpdAST == nil {
-		// raw text update without AST: the model cannot predict; resynchronise is impossible,
-		// callers must not use this in model-checked histories.
-		return diff("model-gap", "update without AST")
-	}
-	if updateTouchesKey(t, op.UpdAST) {
-		// DynamoDB rejects updates of key attributes.
-		if got.Class == adapt.ClsOK {
-			return diff("update-key-attr", "update naming a key attribute was accepted")
+	case isRejectClass(got.Class):
+		if res&refmodel.R != 0 {
+			return nil
+		}
+		if res&refmodel.T != 0 && (updRejects || ur.Unsure) {
+			return nil
+		}
+		if res&refmodel.T == 0 {
+			return diff("cond-reject", "update rejected with %s (%s) although its condition is well-formed and evaluates to %s", got.Class, trunc(got.Msg), res)
+		}
+		return diff("update-reject-valid", "update %q rejected with %s (%s); the model accepts it (pre-update item %s)", op.Update, got.Class, trunc(got.Msg), base.Canon())
+	case got.Class == adapt.ClsOK:
+		if res&refmodel.T == 0 {
+			return diff("cond-accept", "update applied although its condition is %s on the target item", res)
+		}
+		if ur.Unsure {
+			// admit anything; resynchronise the model from the implementation's answer
+			if got.Item != nil {
+				t.Items[key] = got.Item.Clone()
+			}
+			return nil
+		}
+		if updRejects {
+			if ur.Item != nil {
+				return diff("update-accept-invalid", "update giving an index key attribute a wrong type was accepted")
+			}
+			if updateTouchesKey(t, op.UpdAST) {
+				return diff("update-key-attr", "update %q naming a key attribute was accepted", op.Update)
+			}
+			return diff("update-accept-invalid", "update %q accepted; DynamoDB rejects it (operand type / missing path; pre-update item %s)", op.Update, base.Canon())
+		}
+		t.Items[key] = ur.Item
+		if eq, rule := itemsEq("update-result", got.Item, ur.Item); !eq {
+			return diff(rule, "UpdateItem %q returned %s, model computes %s (pre-update item %s)", op.Update, got.Item.Canon(), ur.Item.Canon(), base.Canon())
 		}
 		return nil
 	}
-	base := stored
-	if base == nil {
-		base = t.KeyOf(op.Key).Clone()
+	return diff("class", "update: unexpected class %s (%s)", got.Class, trunc(got.Msg))
+}
+
+// Quirk is a named normalisation that explains a known, listed defect: when two items differ
+// but become equal after the normalisation, the difference is reported under the quirk's
+// own rule name so that it can be listed (and only it) as a known finding.
+type Quirk struct {
+	Name string
+	Norm func(v val.V) val.V
+}
+
+// Quirks are tried in order.
+var Quirks = []Quirk{
+	{Name: "empty-LM-as-NULL", Norm: func(v val.V) val.V { return mapTree(v, emptyLMToNull) }},
+}
+
+func emptyLMToNull(v val.V) val.V {
+	if (v.K == val.KL && len(v.L) == 0) || (v.K == val.KM && len(v.M) == 0) {
+		return val.Null()
 	}
-	ur := op.UpdAST.Apply(base, op.Values)
-	switch {
-	case ur.Unsure:
-		// admit anything; resynchronise the model from the implementation's answer
-		if got.Class == adapt.ClsOK && got.Item != nil {
-			t.Items[key] = got.Item.Clone()
+	return v
+}
+
+func mapTree(v val.V, f func(val.V) val.V) val.V {
+	switch v.K {
+	case val.KL:
+		o := val.V{K: val.KL, L: []val.V{}}
+		for _, e := range v.L {
+			o.L = append(o.L, mapTree(e, f))
 		}
-		return nil
-	case ur.Reject:
-		if got.Class == adapt.ClsOK {
-			return diff("update-accept-invalid", "update %q accepted; DynamoDB rejects it (operand type / missing path)", op.Update)
+		return f(o)
+	case val.KM:
+		o := val.V{K: val.KM, M: map[string]val.V{}}
+		for k, e := range v.M {
+			o.M[k] = mapTree(e, f)
 		}
+		return f(o)
+	}
+	return f(v)
+}
+
+func normItem(it val.Item, q Quirk) val.Item {
+	if it == nil {
 		return nil
 	}
-	if t.indexKeyProblem(ur.Item) {
-		if got.Class == adapt.ClsOK {
-			return diff("update-accept-invalid", "update giving an index key attribute a wrong type was accepted")
+	o := val.Item{}
+	for k, v := range it {
+		o[k] = q.Norm(v)
+	}
+	return o
+}
+
+// itemsEq compares two items; on a mismatch that a quirk explains, the rule is
+// "<base>~<quirk>".
+func itemsEq(baseRule string, got, want val.Item) (bool, string) {
+	if val.ItemsEqual(got, want) {
+		return true, baseRule
+	}
+	for _, q := range Quirks {
+		if val.ItemsEqual(normItem(got, q), normItem(want, q)) {
+			return false, baseRule + "~" + q.Name
 		}
-		return nil
 	}
-	if got.Class != adapt.ClsOK {
-		return diff("update-reject-valid", "update %q rejected with %s (%s); the model accepts it", op.Update, got.Class, trunc(got.Msg))
+	return false, baseRule
+}
+
+// itemSetsEq compares two multisets of items with the same quirk explanation.
+func itemSetsEq(baseRule string, got, want []val.Item) (bool, string) {
+	if adapt.ItemsSetCanon(got) == adapt.ItemsSetCanon(want) {
+		return true, baseRule
 	}
-	t.Items[key] = ur.Item
-	if !val.ItemsEqual(got.Item, ur.Item) {
-		return diff("update-result", "UpdateItem %q returned %s, model computes %s (pre-update item %s)", op.Update, got.Item.Canon(), ur.Item.Canon(), base.Canon())
+	for _, q := range Quirks {
+		g := []val.Item{}
+		for _, it := range got {
+			g = append(g, normItem(it, q))
+		}
+		w := []val.Item{}
+		for _, it := range want {
+			w = append(w, normItem(it, q))
+		}
+		if adapt.ItemsSetCanon(g) == adapt.ItemsSetCanon(w) {
+			return false, baseRule + "~" + q.Name
+		}
 	}
-	return nil
+	return false, baseRule
 }
 
 func (c *Client) stepDelete(op adapt.Op, got adapt.Outcome) []Diff {
@@ -658,8 +745,10 @@ func (c *Client) stepDelete(op adapt.Op, got adapt.Outcome) []Diff {
 		return nil
 	}
 	delete(t.Items, key)
-	if op.RetOld && !val.ItemsEqual(got.Item, stored) {
-		return diff("delete-old", "DeleteItem ALL_OLD returned %s, model had %s", got.Item.Canon(), stored.Canon())
+	if op.RetOld {
+		if eq, rule := itemsEq("delete-old", got.Item, stored); !eq {
+			return diff(rule, "DeleteItem ALL_OLD returned %s, model had %s", got.Item.Canon(), stored.Canon())
+		}
 	}
 	if !op.RetOld && got.Item != nil {
 		return diff("delete-old", "DeleteItem without ALL_OLD returned attributes %s", got.Item.Canon())
@@ -782,12 +871,12 @@ func (c *Client) stepSearch(op adapt.Op, got adapt.Outcome) []Diff {
 		}
 		return nil
 	}
-	if adapt.ItemsSetCanon(got.Items) != adapt.ItemsSetCanon(want) {
+	if eq, qrule := itemSetsEq("search-set", got.Items, want); !eq {
 		missing, extra := setDelta(want, got.Items)
-		rule := "search-set"
-		if len(missing) > 0 && len(extra) == 0 {
+		rule := qrule
+		if rule == "search-set" && len(missing) > 0 && len(extra) == 0 {
 			rule = "search-missing"
-		} else if len(extra) > 0 && len(missing) == 0 {
+		} else if rule == "search-set" && len(extra) > 0 && len(missing) == 0 {
 			rule = "search-extra"
 		}
 		return diff(rule, "%s(index=%q keycond=%q filter=%q) returned %d items, expected %d; missing %v; extra %v", op.Kind, op.Index, op.KeyCnd, op.Filter, len(got.Items), len(want), missing, extra)
